@@ -649,6 +649,10 @@ def classify(ops, pre_d, world, diff):
     """Known symptom classes (root causes listed in known_findings.d/C14.json); None = unknown."""
     if diff.get("what") != "diff":
         return None
+    if (ops[-1]["k"] == "deletes" and str(diff.get("expected", "")).startswith("s:K s:length s:d")
+            and diff["expected"].replace(" b:false b:false b:false", " b:true b:false b:false") == diff.get("got")):
+        return {"class": "length-writable-again-after-deleting-a-string-key", "op": "deletes", "world": world,
+                "needs": "length made non-writable after the string key was created"}
     if not observed_keys_above_length(diff.get("got_block", [])):
         return None
     k = ops[-1]["k"]
